@@ -139,7 +139,7 @@ func rewriteFile(name string, srcb []byte) ([]byte, bool, error) {
 	if err != nil {
 		return nil, false, err
 	}
-	if bytes.Contains(srcb, []byte(vsPath)) {
+	if bytes.Contains(srcb, []byte(vsName+" \""+vsPath+"\"")) {
 		return srcb, false, nil // already instrumented
 	}
 	r := &rw{}
